@@ -96,6 +96,41 @@ def heredoc_case(rng):
             "carrier": "heredoc:" + ctx, "rlist": [op + delim_text], "rlist2": None, "noclobber": False}
 
 
+HS_WORDS = [("'word'", b"word"), ("$'a\\n'", b"a\n"), ("$'two\\nlines\\n'", b"two\nlines\n"), ("''", b""), ("$'\\n'", b"\n"), ("\"$nlv\"", b"p\nq\n"),
+            ("'  sp  '", b"  sp  "), ("$x", b"XV"), ("\"$x y\"", b"XV y"), ("'a\tb'", b"a\tb"), ("$'t\\t'", b"t\t"), ("\"$(printf 'c\\n\\n')\"", b"c"),
+            ("*", b"*"), ("'$x'", b"$x"), ("$'x\\n\\n'", b"x\n\n")]
+
+
+def herestring_case(rng):
+    """`<<< word`: the command reads the expanded word followed by exactly one newline - also when the word ends in newlines."""
+    word, val = rng.choice(HS_WORDS)
+    ctx = rng.choice(["plain", "func", "group", "loop", "fd3", "builtin"])
+    if ctx == "plain":
+        cmd = "cat > hd <<< %s\n" % word
+    elif ctx == "func":
+        cmd = "hf() { cat > hd; }\nhf <<< %s\n" % word
+    elif ctx == "group":
+        cmd = "{ cat; echo tail; } > hd <<< %s\n" % word
+    elif ctx == "loop":
+        cmd = "while IFS= read -r l; do printf '%%s\\n' \"[$l]\"; done > hd <<< %s\n" % word
+    elif ctx == "fd3":
+        cmd = "cat <&3 > hd 3<<< %s\n" % word
+    else:
+        cmd = "mapfile -t arr <<< %s\nprintf '%%s\\n' \"${#arr[@]}\" > hd\n" % word
+    block = SETUP + "x=XV\nnlv=$'p\\nq\\n'\nfdprobe --names --max 12 -t B.{i}\n" + cmd + "echo \"@r.{i} $?\"\nfdprobe --names --max 12 -t P.{i}\ndumpf {i} hd hd2"
+    data = val + b"\n"
+    if ctx in ("plain", "func", "fd3"):
+        expect = data
+    elif ctx == "group":
+        expect = data + b"tail\n"
+    elif ctx == "loop":
+        expect = b"".join(b"[" + l + b"]\n" for l in data.split(b"\n")[:-1])
+    else:
+        expect = str(len(data.split(b"\n")) - 1).encode() + b"\n"
+    return {"block": block, "kind": "heredoc", "ctx": "herestring:" + ctx, "delim": word, "dash": False, "body": [], "expect_hd": expect,
+            "carrier": "herestring:" + ctx, "rlist": ["<<< " + word], "rlist2": None, "noclobber": False}
+
+
 # ---- judging ---------------------------------------------------------------------------------------------------
 
 def norm_obs(obs):
@@ -227,6 +262,8 @@ def run(run):
         cases.append(make_case(car, rl, [rng.choice(REDIRS)] if car == "nested" else None, noclobber=(rng.random() < 0.15)))
     for _ in range(int((700 if quick else 20000) * scale)):
         cases.append(heredoc_case(random.Random(rng.getrandbits(64))))
+    for _ in range(int((250 if quick else 6000) * scale)):
+        cases.append(herestring_case(random.Random(rng.getrandbits(64))))
     run.count("cases", len(cases))
 
     def on_agree(c, b):
